@@ -1,7 +1,7 @@
 (* C03 — results do not depend on the execution strategy.  Statements only. *)
 From Coq Require Import List ZArith Bool Lia Sorting.Permutation.
 From GL Require Import Lib.Arr Lib.Keyed Lib.Blocks Lib.ParMap Model.Dom Model.Scalar Model.Reduce Model.GroupByApi
-  Spec.Defs Spec.Exec Proofs.ReduceMerge Proofs.ReduceBlocks Proofs.ReduceWrap Proofs.ChunkedKeys Proofs.GenTie Gen.TablesGen.
+  Spec.Defs Spec.Exec Proofs.ReduceMerge Proofs.ReduceBlocks Proofs.ReduceWrap Proofs.ChunkedKeys Proofs.TieCoreMerge Gen.TablesGen.
 Import ListNotations.
 Open Scope Z_scope.
 
